@@ -236,3 +236,187 @@ Example ex_one_level_only :
   AndC [TAnd [TAnd [TEq va "x"; TEq vb "x"]; TEq vc "x"]]
   = TAnd [TAnd [TEq va "x"; TEq vb "x"]; TEq vc "x"].
 Proof. vm_compute. reflexivity. Qed.
+
+(* ====================================================================================================
+   The consumer: extract_pivots / extract_equalities and Solver.solve (model: Booleq/Solver.v).
+   [ord] (and [eord]) is the order in which the interpreter iterates a set; every statement holds for
+   every order.  Exceptions are [None]/[Raised].
+   ==================================================================================================== *)
+From PV Require Import Booleq.Solver Booleq.SolverProofs.
+
+(* ---------- (a) extract_pivots, extract_equalities ---------- *)
+
+(* the contract of extract_pivots: if sigma is drawn from the table and satisfies the term, every pivot that is a
+   key of the table contains the value sigma gives it.  Holds for every term all of whose disjunctions are
+   [guarded] (each table key among an _Or's pivots is a pivot of EVERY disjunct); in particular for every term
+   without _Or.  var=var equalities: both sides get the intersection of their table entries. *)
+Theorem pivots_sound_partial : forall (sigma : name -> name) (tbl : table) (t : term),
+  keys_vars tbl -> consistent sigma tbl -> covers tbl t = true -> guarded tbl t = true ->
+  eval sigma t = true ->
+  forall p pv, In (p, pv) (extract_pivots tbl t) -> has_key tbl p = true -> In (sigma p) pv.
+Proof. exact pivots_sound_lemma. Qed.
+Print Assumptions pivots_sound_partial.
+
+(* without [guarded] the contract fails: (~a = x | ~b = y) under ~a in {x,z}, ~b in {y} yields the pivot
+   ~a -> {x}, although ~a = z, ~b = y satisfies the term.  _Or.extract_pivots takes the union over the
+   disjuncts that mention a name; a disjunct that does not mention it allows any value.  FINDING. *)
+Theorem pivots_sound_refuted :
+  exists (sigma : name -> name) (tbl : table) (t : term),
+    keys_vars tbl /\ consistent sigma tbl /\ covers tbl t = true /\ eval sigma t = true /\
+    ~ (forall p pv, In (p, pv) (extract_pivots tbl t) -> has_key tbl p = true -> In (sigma p) pv).
+Proof.
+  exists w_sigma, w_tbl, w_term. destruct pivots_refuted_lemma as [A [B [C [D [_ E]]]]]. repeat split; assumption.
+Qed.
+Print Assumptions pivots_sound_refuted.
+
+(* the result of extract_pivots is a dict: no key twice *)
+Theorem pivots_keys_unique : forall tbl t, NoDup (map fst (extract_pivots tbl t)).
+Proof. exact nodup_extract_pivots. Qed.
+Print Assumptions pivots_keys_unique.
+
+(* extract_equalities returns exactly the (left, right) pairs of the _Eq nodes of the term *)
+Theorem equalities_spec : forall t l r, In (l, r) (extract_equalities t) <-> occurs_eq l r t.
+Proof. exact equalities_spec_lemma. Qed.
+Print Assumptions equalities_spec.
+
+(* ---------- (b) Solver.solve ---------- *)
+
+(* termination: the fuel solve() is run with (1 + size of the table) is never exhausted ... *)
+Theorem solve_never_out_of_fuel : forall ord eord s, solve ord eord s <> OutOfFuel.
+Proof. exact solve_fuel_lemma. Qed.
+Print Assumptions solve_never_out_of_fuel.
+
+(* ... because one iteration of `while something_changed` only shrinks the table: no key gains a value, the
+   keys stay, the total size does not grow, it strictly decreases when the iteration reports a change, and
+   the table is literally unchanged when it reports none *)
+Theorem round_shrinks : forall ord variables tbl im tbl' im' ch site,
+  round ord variables tbl im = Some (tbl', im', ch, site) ->
+  tsize tbl' <= tsize tbl /\ (ch = true -> tsize tbl' < tsize tbl) /\ (ch = false -> tbl' = tbl) /\
+  tbl_le tbl' tbl /\ (forall k, has_key tbl' k = has_key tbl k).
+Proof.
+  intros ord variables tbl im tbl' im' ch site H. destruct (round_rel _ _ _ _ _ _ _ _ H) as [A [B [C [D E]]]].
+  split; [exact A|]. split; [intro X; destruct (B X); [discriminate | assumption]|].
+  split; [intro X; apply C; exact X|]. split; assumption.
+Qed.
+Print Assumptions round_shrinks.
+
+(* the result: its keys are the registered variables, every value it offers is a non-FALSE candidate of the
+   completed implications, and it is a FIXED POINT: one more iteration (started from the table it returns and the
+   implications of the last iteration) returns the same table, the returned implications, and "nothing changed" *)
+Theorem solve_fixed_point : forall ord eord s im tbl im' tr,
+  complete ord eord s = Some im -> solve ord eord s = Done (tbl, im', tr) ->
+  (forall v vs, lookup tbl v = Some vs -> incl vs (nonfalse_values im v)) /\
+  (forall k, has_key tbl k = mem_name k (ord (vars s))) /\
+  exists im0 site, round ord (vars s) tbl im0 = Some (tbl, im', false, site).
+Proof. exact solve_shape_lemma. Qed.
+Print Assumptions solve_fixed_point.
+
+(* _complete never replaces a registered implication and only ever adds TRUE *)
+Theorem complete_extends : forall ord eord s im, complete ord eord s = Some im ->
+  (forall var value imp, alookup (adict (imps s) var) value = Some imp -> alookup (adict im var) value = Some imp) /\
+  (forall var value imp, alookup (adict im var) value = Some imp ->
+     alookup (adict (imps s) var) value = Some imp \/ imp = T).
+Proof. exact complete_ext_lemma. Qed.
+Print Assumptions complete_extends.
+
+(* one iteration never loses a solution -- this is where simplify_equiv is relied on: every implication is
+   replaced by its simplification against the current table (same truth value under every assignment drawn
+   from the table, [simplify_equiv]), a value is dropped only when its implication became FALSE, and the
+   conjunction of the per-variable disjunctions is true under every solution, so its (guarded) pivots are sound.
+   [sinv]: sigma is drawn from the table, and every variable's current implication at sigma's value is true. *)
+Theorem round_preserves_solutions : forall sigma ord variables tbl0 tbl im tbl' im' ch site,
+  ord_ok ord -> (forall v, In v variables -> is_var v = true) ->
+  (forall k, has_key tbl0 k = true -> In k variables) ->
+  sinv sigma variables tbl0 tbl im ->
+  round ord variables tbl im = Some (tbl', im', ch, site) ->
+  guarded (fst site) (snd site) = true ->
+  sinv sigma variables tbl0 tbl' im'.
+Proof. exact round_sound. Qed.
+Print Assumptions round_preserves_solutions.
+
+(* SOUNDNESS (partial): for a well-formed system (variables = the "~"-names, every "~"-name in a term registered),
+   every solution sigma of the completed system -- ground truth true, every variable takes a candidate value whose
+   implication is true -- survives: sigma(v) is in result(v) for every variable, PROVIDED every term pivots were
+   extracted from during the run (the simplified ground truth, then And(Or(implications...)) of each iteration;
+   the model returns them as [tr]) is [guarded]. *)
+Theorem solve_sound_partial : forall sigma ord eord s im tbl im' tr,
+  ord_ok ord -> wf_solver s ->
+  complete ord eord s = Some im ->
+  solution sigma (vars s) (ground s) im ->
+  solve ord eord s = Done (tbl, im', tr) -> trace_guarded tr = true ->
+  forall v, In v (vars s) -> exists vs, lookup tbl v = Some vs /\ In (sigma v) vs.
+Proof.
+  intros sigma ord eord s im tbl im' tr Ho W Hc Hsol Hsolve G.
+  assert (Wi : wf_im (vars s) im) by (eapply wf_complete_lemma; eassumption).
+  destruct W as [W1 [W2 W3]].
+  exact (solve_sound_lemma sigma ord eord s im tbl im' tr Ho W1 W2 Wi Hc Hsol Hsolve G).
+Qed.
+Print Assumptions solve_sound_partial.
+
+(* SOUNDNESS is FALSE in general (FINDING): ~a=x => ~b=p; ~a=y => ~c=q; ~b in {p,r}, ~c in {q,s} free.
+   sigma = {~a:y, ~b:r, ~c:q} satisfies every implication, but solve() returns ~b = {p}: the pivots of
+   (~b=p | ~c=q) restrict ~b although the second disjunct does not mention it. *)
+Theorem solve_sound_refuted :
+  exists sigma s im tbl im' tr,
+    wf_solver s /\ complete oid eid s = Some im /\ solution sigma (vars s) (ground s) im /\
+    solve oid eid s = Done (tbl, im', tr) /\
+    exists v vs, In v (vars s) /\ lookup tbl v = Some vs /\ ~ In (sigma v) vs.
+Proof.
+  destruct solve_refuted_lemma as [im [tbl [im' [tr [_ [A [B [C [D [E [F _]]]]]]]]]]].
+  exists u_sigma, u_solver, im, tbl, im', tr.
+  split; [exact A|]. split; [exact B|]. split; [exact C|]. split; [exact D|].
+  exists "~b", ["p"]. split; [vm_compute; auto|]. split; [exact E|].
+  rewrite F. intros [X|[]]. discriminate.
+Qed.
+Print Assumptions solve_sound_refuted.
+
+(* NOT guaranteed -- completeness: a value in the result need not extend to a solution.  Witness (inside the
+   guarded fragment): ~a=x => ~b=x; ~a=y => ~b=y; ~b=x => ~a=y; ~b=y => ~a=x has no solution at all, yet solve()
+   returns ~a = ~b = {x, y}. *)
+Theorem solve_complete_refuted :
+  exists s im tbl im' tr,
+    wf_solver s /\ complete oid eid s = Some im /\ solve oid eid s = Done (tbl, im', tr) /\
+    trace_guarded tr = true /\ lookup tbl "~a" = Some ["x"; "y"] /\
+    forall sigma, ~ solution sigma (vars s) (ground s) im.
+Proof.
+  destruct solve_incomplete_lemma as [im [tbl [im' [tr [_ [A [B [C [D [E F]]]]]]]]]].
+  exists i_solver, im, tbl, im', tr.
+  split; [exact A|]. split; [exact B|]. split; [exact C|]. split; [exact D|].
+  split; [subst tbl; reflexivity | exact F].
+Qed.
+Print Assumptions solve_complete_refuted.
+
+(* ---------- non-vacuity of solve_sound_partial ---------- *)
+(* test_solve_and-like system with a ground truth, var=var, a FALSE implication: guarded, solvable, pruned *)
+Definition ex_script : list call := [CReg "~a"; CReg "~b"; CReg "~c";
+  CTrue (OrC [EqC "~a" "x"; EqC "~a" "y"]);
+  CImp (EqC "~a" "x") (AndC [EqC "~b" "x"; EqC "~c" "~b"]); CImp (EqC "~a" "y") (EqC "~b" "z");
+  CImp (EqC "~a" "w") T;
+  CImp (EqC "~b" "x") T; CImp (EqC "~b" "z") F; CImp (EqC "~c" "x") T; CImp (EqC "~c" "y") T].
+Definition ex_solver : solver := match run_script ex_script with Some s => s | None => new_solver end.
+Definition ex_sol (n : name) : name := "x".
+
+Example ex_solve :
+  exists im tbl im' tr,
+    run_script ex_script = Some ex_solver /\ wf_solver ex_solver /\ complete oid eid ex_solver = Some im /\
+    solution ex_sol (vars ex_solver) (ground ex_solver) im /\
+    solve oid eid ex_solver = Done (tbl, im', tr) /\ trace_guarded tr = true /\
+    tbl = [("~a", ["x"]); ("~b", ["x"]); ("~c", ["x"])] /\ List.length tr = 4.
+Proof.
+  eexists. eexists. eexists. eexists.
+  split; [vm_compute; reflexivity|].
+  split; [apply wf_solverb_ok; vm_compute; reflexivity|].
+  split; [vm_compute; reflexivity|].
+  split; [apply solutionb_ok; vm_compute; reflexivity|].
+  split; [vm_compute; reflexivity|].
+  split; [vm_compute; reflexivity|].
+  split; vm_compute; reflexivity.
+Qed.
+
+(* exceptions are modelled: a value=value equality inside an implication makes _get_first_approximation raise *)
+Example ex_solve_raises :
+  match run_script [CReg "~a"; CImp (EqC "~a" "x") (EqC "x" "y")] with
+  | Some s => solve oid eid s = Raised
+  | None => False
+  end.
+Proof. vm_compute. reflexivity. Qed.
